@@ -24,6 +24,8 @@ import (
 	"os/exec"
 	"path/filepath"
 	"regexp"
+	"runtime"
+	"sort"
 	"strings"
 	"sync"
 	"sync/atomic"
@@ -112,7 +114,9 @@ func c16slug(s string) string {
 }
 
 // c16streamRun runs one stream in a child process and merges what it reports.
-func c16streamRun(c *Ctx, cfg c16streamCfg, n int) {
+func c16streamRun(c *Ctx, cfg c16streamCfg, n int) { c16streamRunC(c, cfg, n, false) }
+
+func c16streamRunC(c *Ctx, cfg c16streamCfg, n int, confirming bool) {
 	desc := c16desc{Stream: &cfg}
 	out := filepath.Join(c.Out, fmt.Sprintf("stream-%d", n))
 	b, _ := json.Marshal(cfg)
@@ -161,6 +165,17 @@ func c16streamRun(c *Ctx, cfg c16streamCfg, n int) {
 		return
 	}
 	for _, v := range res.Violations {
+		if v.Key == "debugger-stops-answering" && !confirming {
+			// an observation against a time bound: only reported when a second run of the same
+			// stream ends in a violation as well (a wedged debugger does, a stalled machine does not)
+			before := len(c.Violations)
+			c16streamRunC(c, cfg, n+1000, true)
+			if len(c.Violations) == before {
+				c.Dist["stream_time_bound_exceeded_not_confirmed"]++
+				c.Notes = append(c.Notes, "a stream exceeded a time bound once, the identical second run did not: "+v.Desc)
+			}
+			continue
+		}
 		c.Violate(v.Key, v.Desc, desc)
 	}
 	for k, v := range res.Distribution {
@@ -205,8 +220,39 @@ func (st *c16streamState) violate(key, what string) {
 	st.violMu.Lock()
 	defer st.violMu.Unlock()
 	if atomic.CompareAndSwapInt32(&st.failed, 0, 1) {
+		if key == "debugger-stops-answering" {
+			what += " | blocked in: " + c16blockedIn()
+		}
 		st.c.Violate(key, what, nil)
 	}
+}
+
+// c16blockedIn lists the debugger functions in which goroutines currently wait (diagnosis only).
+func c16blockedIn() string {
+	buf := make([]byte, 1<<20)
+	buf = buf[:runtime.Stack(buf, true)]
+	seen := map[string]int{}
+	for _, g := range strings.Split(string(buf), "\n\n") {
+		if !strings.Contains(g, "sync.") {
+			continue
+		}
+		for _, l := range strings.Split(g, "\n") {
+			if strings.HasPrefix(l, "github.com/krotik/ecal/interpreter.(*ecalDebugger).") {
+				f := strings.TrimPrefix(l, "github.com/krotik/ecal/interpreter.(*ecalDebugger).")
+				if i := strings.Index(f, "("); i > 0 {
+					f = f[:i]
+				}
+				seen[f]++
+				break
+			}
+		}
+	}
+	var parts []string
+	for f, n := range seen {
+		parts = append(parts, fmt.Sprintf("%s x%d", f, n))
+	}
+	sort.Strings(parts)
+	return strings.Join(parts, ", ")
 }
 
 // send sends one line; false = stop the stream.
